@@ -419,7 +419,7 @@ pub fn c04(tier: Tier) -> i32 {
         "out-of-bounds reads that neither panic nor crash would need a memory checker; the checked from_utf8 branch and slice indexing turn the reachable ones into panics in this build".into(),
     ];
     start_watchdog("C04");
-    docu::run(&mut rep, tier, &["byte", "tok", "ctx", "esc", "num", "edge", "dt", "raw", "corpus", "decor", "stmt-small"], &c04_eval);
+    docu::run(&mut rep, tier, &["byte", "tok", "ctx", "esc", "num", "edge", "dt", "raw", "corpus", "decor", "stmt-small", "cp", "utf8", "vtok"], &c04_eval);
     if let Err(e) = growth(&mut rep, tier) {
         println!("MACHINERY-ERROR {}", e);
         return 2;
